@@ -180,7 +180,7 @@ def build(ctx):
     call_spec = '''
     ensures
         sleep_dur(r.sleep) == deadline(header_deadline(req.head.headers), dur(old(self).default_timeout)), // @OBL %(k)s::Timeout::call::deadline_is_min [C11] the timer is armed with exactly min(local default, timeout header); either may be absent; an unparsable header counts as absent
-        final(self).inner.calls() == old(self).inner.calls().push(req) && r.inner == old(self).inner.fut_of(req), // @OBL %(k)s::Timeout::call::inner_called_once [C11] the request is handed unchanged to the wrapped service exactly once
+        final(self).inner.calls() == old(self).inner.calls().push(req) && r.inner == old(self).inner.fut_of(req), // @OBL %(k)s::Timeout::call::inner_called_once [C11,C02] the request is handed unchanged to the wrapped service exactly once
         final(self).default_timeout == old(self).default_timeout, // @OBL %(k)s::Timeout::call::default_unchanged [C11] serving a request never changes the configured default
 '''
     for (rel, k) in ((INB, 'inbound'), (OUTB, 'outbound')):
